@@ -153,3 +153,46 @@ Proof.
   apply C_missing_cpu with (l := nA) (i := 2) (p := 2) (j := 1); simpl; auto; try lia.
   intros q [H | [H | []]]; inversion H.
 Qed.
+
+(* ==== metadata gates from source (unit meta) ==== *)
+(* The per-stream claims the model of C15 starts from, read by the GENERATED loom_name, proc_stream_get_pid,
+   thread_stream_get_tid, load_appid, load_rank and the head / one entry of load_cpus (Gen/Meta_gen.v, unit meta) from a
+   stream's tree: they are the fields of RtMetaDefs.to_stream_meta, and the generated functions refuse exactly what
+   add_proc / add_thread / add_app / add_rank refuse on them, struct proc being the slice of the fact lists for its own key
+   (slice_app / slice_rank).  nums_typed: app_id, rank and nranks are numbers when present (a present attribute of another
+   type reads as 0 in the C and as absent in to_stream_meta: MetaGenProofs.appid_not_a_number_refused).  The find-or-insert
+   half of the loop body of load_cpus (loom_find_cpu, find_cpu_by_index, calloc, loom_add_cpu) stays the hand model add_cpu. *)
+From OV Require Emu.MetaPre Gen.Meta_gen Proofs.MetaGenProofs Rt.RtMetaDefs.
+Theorem C15_stream_claims_from_source : forall sx fs s st,
+  RtMetaDefs.to_stream_meta (RtMetaDefs.jobj fs) = Some s -> MetaGenProofs.nums_typed fs = true -> MetaPre.sm st = Some fs ->
+  (Meta_gen.loom_name sx st tt = Some (s_loom s) /\
+   (Meta_gen.proc_stream_get_pid sx st tt <? 0)%Z = negb (valid_proc (spkey s)) /\
+   (0 <= Meta_gen.proc_stream_get_pid sx st tt -> Meta_gen.proc_stream_get_pid sx st tt = s_pid s)%Z /\
+   (Meta_gen.thread_stream_get_tid sx st tt <? 0)%Z = (s_tid s <=? 0)%Z /\
+   (0 <= Meta_gen.thread_stream_get_tid sx st tt -> Meta_gen.thread_stream_get_tid sx st tt = s_tid s)%Z) /\
+  ((0 <= MetaPre.p_appid st)%Z ->
+   MetaPre.exec (Meta_gen.load_appid tt tt) sx st =
+   match part add_app app_claim (MetaGenProofs.slice_app s (MetaPre.p_appid st)) s with
+   | Ok X' => MetaPre.MOk (MetaGenProofs.with_appid st (MetaGenProofs.app_of X'))
+   | _ => MetaPre.MErr MetaPre.E_FAIL
+   end) /\
+  (MetaGenProofs.rank_inv st ->
+   MetaPre.exec (Meta_gen.load_rank tt tt) sx st =
+   match part add_rank rank_claim (MetaGenProofs.slice_rank s (MetaPre.p_rank st) (MetaPre.p_nranks st)) s with
+   | Ok X' => MetaPre.MOk (MetaGenProofs.with_rank_of st X')
+   | _ => MetaPre.MErr MetaPre.E_FAIL
+   end) /\
+  (Meta_gen.load_cpus_head sx st tt (Some fs) = match s_cpus s with None => 0 | Some [] => -1 | Some (_ :: _) => 1 end /\
+   forall cs, s_cpus s = Some cs -> forall i e, nth_error cs i = Some e ->
+     Meta_gen.load_cpus_entry sx st (MetaGenProofs.cpus_ptr sx fs st) (Z.of_nat i) = if (fst e <? 0)%Z then None else Some e)%Z.
+Proof. exact MetaGenProofs.stream_claims_from_source. Qed.
+Print Assumptions C15_stream_claims_from_source.
+
+Example C15_ex_stream_claims_from_source :
+  RtMetaDefs.to_stream_meta (RtMetaDefs.jobj MetaGenProofs.ex_fs) = Some (mkS [110; 48] 100 101 (Some 1) (Some 1) (Some 4) (Some [(0, 7); (1, 9)]))%Z /\
+  MetaGenProofs.nums_typed MetaGenProofs.ex_fs = true /\
+  MetaPre.exec (Meta_gen.load_appid tt tt) (MetaGenProofs.ex_sx []) (MetaPre.fresh (Some MetaGenProofs.ex_fs)) = MetaPre.MOk (MetaPre.mkM (Some MetaGenProofs.ex_fs) 1 (-1) 0 None) /\
+  MetaPre.exec (Meta_gen.load_rank tt tt) (MetaGenProofs.ex_sx []) (MetaPre.fresh (Some MetaGenProofs.ex_fs)) = MetaPre.MOk (MetaPre.mkM (Some MetaGenProofs.ex_fs) 0 1 4 None) /\
+  MetaPre.exec (Meta_gen.load_rank tt tt) (MetaGenProofs.ex_sx []) (MetaPre.mkM (Some MetaGenProofs.ex_fs) 1 2 4 None) = MetaPre.MErr MetaPre.E_FAIL.
+Proof. repeat split; vm_compute; reflexivity. Qed.
+(* ==== end of block (unit meta) ==== *)
